@@ -6,6 +6,7 @@
 //!   hold    reply only after the NEXT request was answered (out-of-order replies)
 //! case c04 <seed> <i> timeout_ms=<t>
 //! call <stream> <k> <action> -> ok:<payload>|timeout|err:<text> <elapsed_ms>
+//! (after the two rounds: requestor churn -- a stream with a late-answered call is dropped, a new stream's first call is never answered)
 use crate::net::*;
 use crate::util::*;
 use futures::{SinkExt, StreamExt};
@@ -167,6 +168,57 @@ pub async fn run_case(client: &Client, addr: std::net::SocketAddr, certs: &Certs
         if round == 0 {
             // let every late reply arrive before the second round
             tokio::time::sleep(Duration::from_millis(timeout_ms + 500)).await;
+        }
+    }
+    // requestor churn: a fresh requestor stream whose only call is answered late goes away, another
+    // one registers on the same topic and makes its first call (never answered) while that late
+    // reply is still on its way: it must time out, not receive the other stream's reply
+    {
+        let open = |name: &'static str| {
+            let b = client
+                .requestor(&topic)
+                .with_request_encoder(StringCodec)
+                .with_reply_decoder(StringCodec)
+                .with_request_timeout(Duration::from_millis(timeout_ms));
+            async move {
+                match b {
+                    Ok(b) => b.open().await.map_err(|e| format!("{}:{:?}", name, e)),
+                    Err(e) => Err(format!("{}:{:?}", name, e)),
+                }
+            }
+        };
+        let s_old = streams + 10;
+        let s_new = streams + 11;
+        match open("churn_old").await {
+            Ok(mut old) => {
+                let payload = format!("rq-{}-2-0|late", s_old);
+                let t0 = Instant::now();
+                let res = old.request(payload.clone()).await;
+                let _ = writeln!(out, "call {} 200 late {} -> {} {}", s_old, payload, outcome(res), t0.elapsed().as_millis());
+                drop(old);
+                match open("churn_new").await {
+                    Ok(mut new) => {
+                        let payload = format!("rq-{}-2-0|never", s_new);
+                        let t0 = Instant::now();
+                        let res = new.request(payload.clone()).await;
+                        let _ = writeln!(out, "call {} 200 never {} -> {} {}", s_new, payload, outcome(res), t0.elapsed().as_millis());
+                        // and the surviving streams still get their own replies
+                        for (s, q) in reqs.iter().enumerate() {
+                            let mut qc = q.clone();
+                            let payload = format!("rq-{}-2-1|quick", s);
+                            let t0 = Instant::now();
+                            let res = qc.request(payload.clone()).await;
+                            let _ = writeln!(out, "call {} 201 quick {} -> {} {}", s, payload, outcome(res), t0.elapsed().as_millis());
+                        }
+                    }
+                    Err(e) => {
+                        let _ = writeln!(out, "harness_error {}", e.replace(' ', "_"));
+                    }
+                }
+            }
+            Err(e) => {
+                let _ = writeln!(out, "harness_error {}", e.replace(' ', "_"));
+            }
         }
     }
     let _ = writeln!(out, "end");
